@@ -1478,7 +1478,15 @@ private:
                                  ".add_constraints.add_disequation");
     for (auto kv : e) {
       variable_t pivot = kv.second;
-      interval_t i = compute_residual(e, pivot) / interval_t(kv.first);
+      // c * pivot != residual
+      interval_t c(kv.first);
+      interval_t residual = compute_residual(e, pivot);
+      interval_t i = residual / c;
+      if (!(i * c == residual)) {
+        // The division is not exact so i is a rounded quotient:
+        // removing it from pivot would remove feasible values.
+        continue;
+      }
       if (auto k = i.singleton()) {
         if (!add_univar_disequation(pivot, *k)) {
           // already set to bottom
